@@ -18,13 +18,13 @@ CHECKS = {
  "C02": dict(level="exploration", tech="property-based testing over generated request-level schedules of concurrent syncs (deterministic cooperative scheduler) with chain-replay oracle",
    text="Generated interleavings, at single-server-request granularity, of 1-4 concurrent Replica::sync calls after generated prior histories; every sync must be Ok, replica invariant right after each racing sync, convergence to the chain replay, nothing sent twice.",
    note="Server requests are atomic (correct server); only server requests are scheduling points (in-memory storage).", ref="4/C02"),
- "C03": dict(level="exploration", tech="exhaustive enumeration of the pair conflict space + property-based sampling of triples; rule oracle from the docs + metamorphic relation over all sync-order permutations",
+ "C03": dict(level="exploration", tech="exhaustive enumeration of the pair conflict space + property-based sampling of triples; rule oracle from the docs (incl. 'created on every editing replica, deleted again on one': the deletion wins) + metamorphic relation over all sync-order permutations",
    text="All pairs of single edits x value relation x timestamp relation x base state x causal follow-up are enumerated exhaustively and run in both sync orders; 2-3 replica scenarios with longer edit lists are sampled and run in all permutations. Oracle: documented winner where the rules determine one, otherwise membership + agreement; outcome equal across all sync orders; chain replay.",
    note="Rule oracle deliberately silent on ties with different values and on repeated updates of one property on one replica (not determined by the docs).", ref="4/C03"),
  "C04": dict(level="fault_enumeration", tech="fault injection enumerated over every storage call and server request of a sync, on generated lead-up histories (proptest); differential against the fault-free run + replica invariant",
    text="For each generated scenario the interrupted replica's sync is first run in counting mode, then re-run once per storage-call index x {error, process stop} and per server-request index x {error before effect, effect then lost reply}, plus generated sequences of consecutive faults, on in-memory and (subset) SQLite with reopen. Oracle: replica invariant right after the fault; retry Ok; converged state AND chain operation sequence identical to the fault-free run; nothing sent twice. Exhaustive over injection points per scenario, sampled over scenarios.",
    note="Process stop = the sync future is dropped at a storage call (uncommitted transaction abandoned); server = harness ModelServer.", ref="4/C04"),
- "C13": dict(level="exploration", tech="differential testing against an independent implementation of the documented scheme (hand-written PBKDF2-HMAC-SHA256 + ChaCha20-Poly1305, RFC-vector self-tested) + exhaustive tamper sweep + inspection of what the backends store",
+ "C13": dict(level="exploration", tech="differential testing against an independent implementation of the documented scheme (hand-written PBKDF2-HMAC-SHA256 + ChaCha20-Poly1305, RFC-vector self-tested) + exhaustive tamper sweep + salt/secret boundary-shift pairs + inspection of what the backends store",
    text="Per generated (secret, salt): values sealed by the crate open with the independent implementation under key = PBKDF2(secret, salt, 600000), AAD = 0x01||version id, and vice versa; nonces pairwise distinct; EVERY byte x {xor 1, 0x80, 0xff}, EVERY truncation, extensions, every single-bit change of the version id, foreign app id, other secret/salt must be rejected. Objects in the in-memory object store and files in the git working tree after real syncs open with the independent implementation bound to their own version id, contain no marker plaintext, and a flipped bit / re-labelled object makes the Server call fail.",
    note="HTTP request bodies are checked with the same oracle in the HTTP campaign (see notes).", ref="4/C13"),
  "C14": dict(level="exploration", tech="property-based testing: exact wire-format validator (independent JSON + RFC 3339 parser) over transmitted versions; grammar-based generation of foreign documents with reference replay",
@@ -33,10 +33,10 @@ CHECKS = {
  "C16": dict(level="exploration", tech="differential (lock-step) property-based testing of the two storage backends over the whole StorageTxn surface; persistence round-trips; harness-written legacy schema files",
    text="Generated transactions of StorageTxn calls run in lock-step on InMemoryStorage and SqliteStorage, committed or abandoned, with close/reopen and read-only probes at generated points: every return value compared (collections as multisets, errors by is_ok), full dump after every transaction and reopen. Databases written by the harness in the 0.8, 0.9, (0,1), (0,2) layouts with generated content must read back identically after the upgrade, incl. per-task operation lookup.",
    note="In-contract calls only (set_working_set_item within range, one commit per transaction).", ref="4/C16"),
- "C17": dict(level="exploration", tech="randomised concurrency stress (threads and processes) with generated workloads and in-transaction delays; strict post-hoc audit through a fresh handle",
+ "C17": dict(level="exploration", tech="randomised concurrency stress (threads and processes) with generated workloads and in-transaction delays; strict post-hoc audit through a fresh handle; in-workload serializability probe through a read-only handle (operations / tasks / operations in one transaction)",
    text="2-8 workers with their own handles on one SQLite directory run generated scripts of tagged commits, undo, rebuild and reads with sleeps inside transactions; audit: each successful commit present exactly once, contiguous and in order; failed and undone commits absent; stored tasks == replay of stored operations; working-set entries unique. Evidence reports the number of commit pairs whose wall-clock intervals actually overlapped.",
    note="Weakest use of the technique: the lock schedule is SQLite's and the OS's; only the workload is reproducible.", ref="4/C17"),
- "C18": dict(level="exploration", tech="property-based testing with hostile-value generators over the task key grammar; every read accessor under panic capture + value oracle from tasks.md",
+ "C18": dict(level="exploration", tech="property-based testing with hostile-value generators over the task key grammar; every read accessor under panic capture + value oracle from tasks.md; second phase with a working set made stale by later changes",
    text="Generated task maps over all recognised keys/prefixes with hostile values (i64 extremes, beyond-calendar and beyond-i64 integers, odd syntax, malformed tag/annotation/dependency keys, unknown statuses), stored via TaskData::update on in-memory/SQLite, reloaded, and every read method of Task, TaskData, WorkingSet, DependencyMap and Replica is called under catch_unwind; interpretable values must read as exactly that instant / be listed, uninterpretable ones as None / be skipped.",
    note="Odd integer syntaxes and reserved all-uppercase tag names are no-panic only.", ref="4/C18"),
  "C19": dict(level="exploration", tech="model-based property testing: a task-model reference predicts the exact recorded Update operations and resulting map of every mutator call",
@@ -45,7 +45,7 @@ CHECKS = {
  "C20": dict(level="exploration", tech="property-based testing over a full status x modified grid with generated concurrent edits and sync orders; exact-set oracle + chain replay",
    text="Every case holds the complete grid (6 statuses x 21 modified values incl. boundaries, out-of-range, non-numeric); expire_tasks must remove exactly the deleted tasks with a readable modification time older than 180 days, record ordinary Delete operations with the full old task, and after synchronization in either order with concurrent edits (update, re-open, outright delete) elsewhere the purged tasks are gone on every replica and everything else is untouched.",
    note="Wall clock read by expire_tasks: boundary cells keep >= 60 s distance; odd integer syntaxes are don't-care.", ref="4/C20"),
- "C05": dict(level="exploration", tech="exhaustive sweep of all short batches + property-based random batches; reference model, batch-vs-single differential, fault injection at every storage call of the commit",
+ "C05": dict(level="exploration", tech="exhaustive sweep of all short batches + property-based random batches; reference model, batch-vs-single differential, fault injection at every storage call of the commit; bulk commits of 780-4500 operations with generated fault positions and a one-transaction requirement",
    text="All batches of length <= 4 over a 7-symbol alphabet on 3 prior states (in-memory; <= 3 on SQLite in quick) plus longer random batches with arbitrary recorded old values: one-at-a-time reference model, twin replica committing one operation per commit, operation log / undo list / counters, replica invariant, and an injected error or stop at EVERY storage-call index of commit_operations must leave everything unchanged.",
    note="Storage transactions themselves assumed atomic here (C06/C16 check that).", ref="4/C05"),
  "C06": dict(level="fault_enumeration", tech="crash-point enumeration over every storage call of a replica action on copies of a generated SQLite database + real SIGKILLs of a child process running generated scripts; fresh-handle audit against the sequence of committed states",
@@ -57,7 +57,7 @@ CHECKS = {
  "C15": dict(level="exploration", tech="stateful property-based testing with a relational oracle (old working set -> new working set) derived from the statement",
    text="Generated histories of status changes through Task::set_status, bare creations, outright deletes, remote changes arriving by sync, undo, sync and rebuilds in both modes, on both storages; after every rebuild: slot 0 empty, membership == pending/recurring tasks exactly once, numbers kept (no renumber) or 1..n gap-free in the old relative order (renumber), newcomers last; after every commit: nobody moves and newly pending tasks are appended.",
    note="Order among newcomers unspecified; a newcomer may reuse a dropped trailing number.", ref="4/C15"),
- "C08": dict(level="exploration", tech="model-based property testing of the public Server trait: generated call sequences on 6 backend configurations against ONE reference chain model; whole replicas through each backend with chain-walk replay",
+ "C08": dict(level="exploration", tech="model-based property testing of the public Server trait: generated call sequences on 6 backend configurations against ONE reference chain model; stale-handle probes (another handle moves the head, then a head-unrelated request, then add-version with the previously known parent); HTTP urgency mapping; whole replicas through each backend with chain-walk replay",
    text="Generated sequences of add-version / get-child-version / add-snapshot / get-snapshot from 1-3 handles (parents: latest, nil, older, never-seen; payloads empty, random incl. invalid UTF-8, 100 kB-2 MB) on local (1 and 2 handles), git local-only, git with a shared bare remote and two clones, object store over the in-memory store, and the real HTTP client against a server written from http.md; accept iff parent == latest, rejection names latest and changes nothing (every known parent read back), children returned byte for byte, snapshots intact. Second campaign: two real replicas through each backend must equal the replay of a walk of the backend's chain.",
    note="HTTP server is the harness's reading of http.md; git-with-remote may reject a correct parent once when the remote has an unrelated new commit (tolerated if nothing changed and the retry is accepted).", ref="4/C08"),
  "C09": dict(level="exploration", tech="property-based testing over generated request-level schedules (deterministic scheduler through the in-memory object store's gate) + exhaustive enumeration of all 2-client schedules for short scripts; history invariants vs. the final chain",
@@ -70,7 +70,7 @@ CHECKS = {
    text="For generated scenarios on local, object store, git local-only and git with remote (optionally with a racing replica landing between pull and push, optionally an interrupted add_snapshot), the steps of the interrupted call are counted in a fault-free run and then EVERY step x kind is injected; after dropping all handles and reopening: walk = single chain, head accepts a child, every other parent is rejected naming the head, then all three replicas continue with a generated history, every sync Ok, convergence to the replay of a final walk.",
    note="Stop at a failpoint = unwinding out of the call; object-store requests atomic.", ref="4/C11"),
  "C12": dict(level="exploration", tech="property-based testing: generated histories with Unicode content and urgency scripts; independent snapshot decoder vs. chain replay at the snapshot's version",
-   text="Every snapshot the harness server receives is decoded independently (zlib+JSON) and compared with the reference replay of the chain up to exactly its version; snapshots only directly after an accepted version whose urgency met the threshold; fresh replicas from snapshot + later versions equal the full replay; non-empty replicas never take over an offered snapshot.",
+   text="Every snapshot the harness server receives is decoded independently (zlib+JSON) and compared with the reference replay of the chain up to exactly its version; snapshots only directly after an accepted version whose urgency met the threshold; fresh replicas from snapshot + later versions equal the full replay; non-empty replicas never take over an offered snapshot. The same through the real HTTP client (harness server stating generated urgencies) and the object-store server, judged at a recording wrapper on the Server trait boundary: upload rule against the urgency the backend reported, content against the accepted versions, served snapshot intact, fresh replica from snapshot + later versions.",
    note="Plaintext observed at the Server trait boundary; bounded histories.", ref="4/C12"),
 }
 
